@@ -456,7 +456,10 @@ func ruleFragmentDisjoint(c *Ctx) {
 	}
 
 	// user-keyed maps are emitted through a constant-prefix filter
-	type filt struct{ typ, want string; lower bool }
+	type filt struct {
+		typ, want string
+		lower     bool
+	}
 	for _, fl := range []filt{{"VendorExtensible", "x-", true}, {"Paths", "/", false}} {
 		fd := c.decl(c.method(fl.typ, "MarshalJSON"))
 		if fd == nil {
